@@ -97,6 +97,10 @@ pub struct CrashScenario {
     /// prepares its fakes before the previous test body has finished) and only installed later
     #[serde(default)]
     pub prepare_ahead: bool,
+    /// every lifetime runs inside a destructor while another panic unwinds the thread (a fixture
+    /// whose `Drop` uses its own injector): scope-exit verification must then stay silent, all else holds
+    #[serde(default)]
+    pub in_unwind: bool,
     pub lifetimes: Vec<CrLifetime>,
     pub classes: Vec<String>,
 }
@@ -110,6 +114,10 @@ pub fn generate(profile: &str, seed: u64, index: u64) -> CrashScenario {
     let n_l = if rng.chance(1, 10) { 20 + rng.below(31) as usize } else { 1 + rng.below(6) as usize };
     let mut classes = Vec::new();
     let mut lifetimes = Vec::new();
+    let in_unwind = rng.chance(1, 6);
+    if in_unwind {
+        classes.push("whole-scenario-while-unwinding".into());
+    }
     let prepare_ahead = rng.chance(1, 4);
     if prepare_ahead {
         classes.push("counted-pairs-prepared-a-lifetime-ahead".into());
@@ -253,7 +261,7 @@ pub fn generate(profile: &str, seed: u64, index: u64) -> CrashScenario {
     classes.push(format!("lifetimes-{}", if n_l > 6 { "many" } else { "few" }));
     classes.sort();
     classes.dedup();
-    CrashScenario { engine: "N".into(), family: "crash".into(), profile: profile.into(), variant: "x86_64-linux-native".into(), seed, index, edge_off, prepare_ahead, lifetimes, classes }
+    CrashScenario { engine: "N".into(), family: "crash".into(), profile: profile.into(), variant: "x86_64-linux-native".into(), seed, index, edge_off, prepare_ahead, in_unwind, lifetimes, classes }
 }
 
 fn panic_msg(p: &Box<dyn std::any::Any + Send>) -> String {
@@ -377,6 +385,17 @@ pub fn execute(sc: &CrashScenario, sh: &Shared) -> Value {
     let mut steps_done = 0u64;
     let mut lock_was_poisoned = false;
     let mut prepared: [Option<(FuncPtr, CallCountVerifier)>; 3] = [None, None, None];
+    struct InDrop<F: FnMut()>(Option<F>);
+    impl<F: FnMut()> Drop for InDrop<F> {
+        fn drop(&mut self) {
+            if let Some(mut f) = self.0.take() {
+                f()
+            }
+        }
+    }
+    struct Outer;
+    {
+    let mut all = || {
     for (li, lt) in sc.lifetimes.iter().enumerate() {
         unsafe { libc::alarm(60) };
         sh.note(PH_OTHER, li as u64, 0, 0);
@@ -621,7 +640,7 @@ pub fn execute(sc: &CrashScenario, sh: &Shared) -> Value {
         match (&body, &expect_panic) {
             (Ok(()), None) => {
                 digest = digest.wrapping_mul(31).wrapping_add(1);
-                if !pending.is_empty() {
+                if !pending.is_empty() && !sc.in_unwind {
                     v("unsatisfied-expectation-not-reported", &["C06"], format!("{what}: scope exit did not panic"));
                 }
             }
@@ -631,7 +650,9 @@ pub fn execute(sc: &CrashScenario, sh: &Shared) -> Value {
             (Err(p), None) => {
                 digest = digest.wrapping_mul(31).wrapping_add(2);
                 let msg = panic_msg(p);
-                if pending.is_empty() {
+                if sc.in_unwind && !pending.is_empty() && msg.contains("expected to be called") {
+                    v("more-than-one-panic-raised", &["C05", "C06"], format!("{what}: the thread was already unwinding (the lifetime runs inside a destructor), yet scope exit raised {msg:?}"));
+                } else if pending.is_empty() {
                     v("unexpected-panic", &["C05"], format!("{what}: panicked with {msg:?}"));
                 } else {
                     *faults.entry("verification_panic_at_scope_exit".into()).or_insert(0) += 1;
@@ -692,6 +713,21 @@ pub fn execute(sc: &CrashScenario, sh: &Shared) -> Value {
         if !viol.borrow().is_empty() {
             break;
         }
+    }
+    };
+    if sc.in_unwind {
+        let r = catch_unwind(AssertUnwindSafe(|| {
+            let _g = InDrop(Some(&mut all));
+            std::panic::panic_any(Outer);
+        }));
+        if let Err(p) = r {
+            if !p.is::<Outer>() {
+                v("more-than-one-panic-raised", &["C05"], format!("a panic escaped the fixture's destructor: {}", panic_msg(&p)));
+            }
+        }
+    } else {
+        all();
+    }
     }
     for p in prepared.iter_mut() {
         if let Some(x) = p.take() {
